@@ -31,6 +31,9 @@ PLAN_VERSION = "lfhtc-10"
 
 # ---- theorem lists (fill from Props/*.lean at integration; names are fully qualified) -----------------------------
 THEOREMS05 = ['UrcuVerif.Lfht.Conc.C05_full_holds',
+              'UrcuVerif.Lfht.Conc.lfht_linearizable_partial',
+              'UrcuVerif.Lfht.Conc.linearisation_points',
+              'UrcuVerif.Lfht.Conc.lin_accounting',
               'UrcuVerif.Lfht.Conc.resident_found_traversal',
               'UrcuVerif.Lfht.Conc.C05_partial_holds',
               'UrcuVerif.Lfht.Conc.chain_L',
@@ -45,7 +48,13 @@ THEOREMS05 = ['UrcuVerif.Lfht.Conc.C05_full_holds',
               'UrcuVerif.Lfht.Conc.resident_found',
               'UrcuVerif.Lfht.Conc.invRFL_reach',
               'UrcuVerif.Lfht.Conc.invRFA_reach']
-UNPROVED05 = ['(none: C05_full_holds is proved; global linearizability against a multimap is not a theorem - visible_set_linearizes, found_was_visible, resident_found(_traversal) are the linearisation-point facts, the Wing-Gong oracle checks explored schedules)']
+UNPROVED05 = ["UrcuVerif.Lfht.Conc.LfhtLinearizable (one sequential history ordered by linearisation-point indices for a whole execution) is stated, not "
+              "proved; proved instead (lfht_linearizable_partial): every completed add / add_unique / add_replace / replace / del / lookup "
+              "call - including lookup 'not found' - has a linearisation point between its call and its return at which the multiset-per-key "
+              "specification takes exactly its effect and returns exactly its result, the abstract table changes only at insertion CAS / REMOVED "
+              "fetch-or / replace CAS, and at most one success per node (no point serves two calls). 'not found' needs the key managed by unique "
+              "adds only or by plain adds only (mixed use is genuinely not linearizable for 'not found'); next_duplicate / first / next are covered "
+              "by resident_found_traversal, not by the linearisation-point theorem; the Wing-Gong oracle checks whole histories on explored schedules"]
 THEOREMS06 = ['UrcuVerif.Lfht.Conc.C06_full_holds',
               'UrcuVerif.Lfht.Conc.uniq_in_L',
               'UrcuVerif.Lfht.Conc.no_two_visible',
@@ -626,7 +635,7 @@ def proof(chk, props_name, theorems, unproved, extra_targets=()):
     pfile = os.path.join(vlib.LEAN, "UrcuVerif", "Props", props_name + ".lean")
     if os.path.exists(pfile) and theorems:
         mod = "UrcuVerif.Props." + props_name
-        mods = [mod] + (["UrcuVerif.Neg.C07"] if props_name == "C07" else [])
+        mods = [mod] + (["UrcuVerif.Neg.C07"] if props_name == "C07" else []) + (["UrcuVerif.Props.C05Lin"] if props_name == "C05" else [])
         return chk.proof_part(mods + ["drv_lfhtc"] + list(extra_targets), mods, theorems, AUDIT_MODS + mods, unproved=unproved)
     why = ("UrcuVerif/Props/%s.lean %s: no theorem of this property is checked by this run; only the executable model "
            "(Lfht/Conc/Step3) and the driver are built" % (props_name, "has no registered theorem list in props/c05.py" if os.path.exists(pfile) else "is not present"))
